@@ -388,16 +388,16 @@ pub fn all_suites(thorough: bool) -> Vec<Suite> {
     let d = |q: usize, t: usize| if thorough { t } else { q };
     let overhead = std::mem::size_of::<feoxdb::core::record::Record>();
     let mut v = Vec::new();
-    v.push(suite("mem-core", Cfg::memory(), std_tables(), core_ops(), d(4, 5)));
+    v.push(suite("mem-core", Cfg::memory(), std_tables(), core_ops(), d(5, 6)));
     let mut mt = Cfg::memory();
     mt.ttl = true;
-    v.push(suite("mem-ttl", mt, std_tables(), ttl_ops(false), d(4, 5)));
+    v.push(suite("mem-ttl", mt, std_tables(), ttl_ops(false), d(5, 6)));
     let mut ml = Cfg::memory();
     // room for one small record plus one 5000-byte record, not two big ones
     ml.max_memory = Some(2 * overhead + 2 + 5000 + 16);
-    v.push(suite("mem-limit", ml, std_tables(), limit_ops(), d(5, 6)));
+    v.push(suite("mem-limit", ml, std_tables(), limit_ops(), d(6, 7)));
     let me = Cfg::memory();
-    v.push(suite("mem-errors", me, error_tables(&me), error_ops(), d(2, 3)));
+    v.push(suite("mem-errors", me, error_tables(&me), error_ops(), d(3, 3)));
     for (format, cache) in [(3, true), (3, false), (2, true), (1, true)] {
         let cfg = disk(format, cache, false);
         let mut s = suite(
@@ -431,13 +431,13 @@ pub fn all_suites(thorough: bool) -> Vec<Suite> {
     }
     let mut tm = Cfg::memory();
     tm.ttl = true;
-    v.push(suite("ts-mem", tm, ts_tables(), ts_ops(false, true), d(4, 5)));
+    v.push(suite("ts-mem", tm, ts_tables(), ts_ops(false, true), d(5, 6)));
     let mut tl = Cfg::memory();
     tl.max_memory = Some(overhead + 1 + 8 + 4); // one small record only: creating b fails
-    v.push(suite("ts-mem-limit", tl, ts_tables(), ts_ops(false, false), d(4, 5)));
+    v.push(suite("ts-mem-limit", tl, ts_tables(), ts_ops(false, false), d(5, 6)));
     for format in [1, 2, 3] {
         let cfg = disk(format, true, format != 1);
-        let mut s = suite(&format!("ts-disk-v{format}"), cfg, ts_tables(), ts_ops(true, format != 1), d(3, 4));
+        let mut s = suite(&format!("ts-disk-v{format}"), cfg, ts_tables(), ts_ops(true, format != 1), d(4, 5));
         s.max_heavy = 3;
         v.push(s);
     }
